@@ -123,7 +123,8 @@ def check(run, mod, args):
 	reg = Registry()
 	lib = dict(getattr(mod, 'LIB', {}))
 	eng = Engine(repo, reg, lib, pid)
-	eng.specns = dict(getattr(mod, 'SPECNS', {}))
+	base_specns = dict(getattr(mod, 'SPECNS', {}))
+	eng.specns = base_specns
 	mod.register(reg)
 	unsupported = []
 	targets = mod.targets(run.tier) if callable(getattr(mod, 'targets', None)) else mod.TARGETS
@@ -134,8 +135,11 @@ def check(run, mod, args):
 			# this target is verified against its own set of contracts (e.g. a function that other targets only see through a ghost contract)
 			eng.registry = Registry()
 			regfn(eng.registry)
+			eng.specns = dict(base_specns)
+			eng.specns.update(getattr(regfn, 'specns', {}))      # e.g. a spec function kept opaque for this target
 		else:
 			eng.registry = reg
+			eng.specns = base_specns
 		try:
 			eng.verify_function(qual, inst, override)
 		except (Unsupported, CyFrontError, PathLimit) as e:
